@@ -343,6 +343,13 @@ def l6(chk):
                             sc = dict(k=k, liveS=liveS, bound=bound, uo=uo, uh=uh, extra=extra)
                             cross_block_case(chk, e, m, sc, (co, do, cn, dn))
                             n_sc += 1
+    # the same rules for a compiler temporary (`%tmpN` holds the value of a conditional expression): a qubit in
+    # it that is neither consumed nor handed on is a leak like any other
+    for k in (1, 2):
+        for liveS in itertools.product((False, True), repeat=k):
+            for uh in (False, True):
+                cross_block_case(chk, e, m, dict(k=k, liveS=liveS, bound="here", uo=False, uh=uh, extra=False, name="%tmp3"), (co, do, cn, dn))
+                n_sc += 1
     # borrowed parameter: must reach the exit unconsumed (or re-assigned), whatever happens in between
     for k in (1, 2):
         for bound in ("outer", "rebound"):
@@ -357,6 +364,7 @@ def l6(chk):
 def cross_block_case(chk, e, m, sc, syms):
     co, do, cn, dn = syms
     k, liveS, bound, uo, uh, extra = sc["k"], sc["liveS"], sc["bound"], sc["uo"], sc["uh"], sc["extra"]
+    vname = sc.get("name", "x")
     # what the liveness analysis (C09) yields for these uses: x is live into A iff A uses the incoming
     # value, or lets it through (not rebound) to a successor that needs it
     liveA = bound != "here" and (uo or (bound == "outer" and any(liveS)))
@@ -367,8 +375,8 @@ def cross_block_case(chk, e, m, sc, syms):
         UK = it.lookup_global(m, "UseKind")
         mv = it.getattr(UK, "MOVE")
         T_old, T_new = w["leaf"](0), w["leaf"](1)
-        P_old = mk_var(w, "x", T_old, defined="DEF-OLD")
-        P_new = mk_var(w, "x", T_new, defined="DEF-NEW")
+        P_old = mk_var(w, vname, T_old, defined="DEF-OLD")
+        P_new = mk_var(w, vname, T_new, defined="DEF-NEW")
         xid = it.getattr(P_old, "id")
         out_place = P_old if bound == "outer" else P_new
         BBc = it.lookup_global(e.module(CHKM), "CheckedBB")
@@ -455,7 +463,7 @@ def cross_block_case(chk, e, m, sc, syms):
         ok = ok and all(all(x is P for x, P in zip(row, [out_place])) for row in rows)
         ok = ok and [s_.fields["idx"] for s_ in A.fields["successors"]] == [2 + j for j in range(k)] and [s_.fields["idx"] for s_ in A.fields["predecessors"]] == [0]
         return z3.And(b_(ok), *[z3.Not(c) for c, _, _ in cases])
-    tag = f"succs={k},live-into={''.join('1' if x else '0' for x in liveS)},{bound},used-before-binding={int(uo)},used-after={int(uh)}" + (",in-scope-not-live" if extra else "")
+    tag = f"succs={k},live-into={''.join('1' if x else '0' for x in liveS)},{bound},used-before-binding={int(uo)},used-after={int(uh)}" + (",in-scope-not-live" if extra else "") + (f",variable {vname}" if vname != "x" else "")
     chk.prove_paths(f"check_cfg_linearity[{tag}]:AlreadyUsed<=>consumed-here/\\not-copyable/\\live-later;NotUsed<=>alive-here/\\not-droppable/\\not-consumed/\\not-live-on-every-branch;else-rows=live-places", paths, post,
                     func=f"{LC}:check_cfg_linearity", replay=lambda m_: {"script": ORACLE + REPLAY_FAMILY, "input": {}})
 
